@@ -35,3 +35,148 @@ def na(y: Int, x: Int, A: Arr2) -> SetOf(Int):
     requires(square(A), node(x, A), node(y, A))
     ensures(result == {j for j in range(len(A)) if uedge(A, y, j) and adjacent(A, x, j)})
     fresh(result)
+
+
+# ---- reachability (recursive functions: the callee's own contract is used at the recursive call; termination is not proved)
+
+@spec
+def reach_plus(A, x, i):
+    """a directed path with at least one edge from x to i"""
+    return any(dedge(A, x, k) and reach(A, k, i) for k in range(len(A)))
+
+
+@contract("sempler.utils.descendants")
+def descendants(i: Int, A: Arr2) -> SetOf(Int):
+    requires(pdag_ok(A), node(i, A))     # acyclic directed part: the recursion terminates (termination itself is not proved)
+    ensures(result == {j for j in range(len(A)) if reach(A, i, j)})
+    fresh(result)
+
+
+@invariant("sempler.utils.descendants", loop=1)
+def _desc_inv(desc, i, A):
+    holds(desc == {x for x in range(len(A)) if x == i or any(j in _done1 and reach(A, j, x) for j in range(len(A)))},
+          _iter1 == {j for j in range(len(A)) if dedge(A, i, j)})
+
+
+@contract("sempler.utils.desc")
+def desc_(i: Int, A: Arr2) -> SetOf(Int):
+    requires(pdag_ok(A), node(i, A))     # acyclic directed part: the recursion terminates (termination itself is not proved)
+    ensures(result == {j for j in range(len(A)) if reach(A, i, j)})
+    fresh(result)
+
+
+@invariant("sempler.utils.desc", loop=1)
+def _desc2_inv(descendants, i, A):
+    holds(descendants == {x for x in range(len(A)) if x == i or any(j in _done1 and reach(A, j, x) for j in range(len(A)))},
+          _iter1 == {j for j in range(len(A)) if dedge(A, i, j)})
+
+
+@contract("sempler.utils.ancestors")
+def ancestors(i: Int, A: Arr2) -> SetOf(Int):
+    requires(pdag_ok(A), node(i, A))     # acyclic directed part: the recursion terminates (termination itself is not proved)
+    ensures(result == {x for x in range(len(A)) if reach_plus(A, x, i)})
+    fresh(result)
+
+
+@invariant("sempler.utils.ancestors", loop=1)
+def _anc_inv(anc, i, A):
+    holds(anc == {x for x in range(len(A)) if dedge(A, x, i) or any(j in _done1 and reach_plus(A, x, j) for j in range(len(A)))},
+          _iter1 == {j for j in range(len(A)) if dedge(A, j, i)})
+
+
+@contract("sempler.utils.an")
+def an_(i: Int, A: Arr2) -> SetOf(Int):
+    requires(pdag_ok(A), node(i, A))     # acyclic directed part: the recursion terminates (termination itself is not proved)
+    ensures(result == {x for x in range(len(A)) if reach_plus(A, x, i)})
+    fresh(result)
+
+
+@invariant("sempler.utils.an", loop=1)
+def _an_inv(ancestors, i, A):
+    holds(ancestors == {x for x in range(len(A)) if dedge(A, x, i) or any(j in _done1 and reach_plus(A, x, j) for j in range(len(A)))},
+          _iter1 == {j for j in range(len(A)) if dedge(A, j, i)})
+
+
+@contract("sempler.utils.transitive_closure")
+def transitive_closure(A: Arr2) -> Arr2:
+    requires(square(A))
+    raises(ValueError, when=not acyclic(A))
+    hint(acyclic_if_ranked(directed_part(A), lambda u: rank(A, u)), at='before:descendants')
+    ensures(same_array(result, array_of(len(A), len(A), lambda i, j: 1.0 if (i != j and reach(A, i, j)) else 0.0)))
+    fresh(result)
+
+
+@invariant("sempler.utils.transitive_closure", loop=1)
+def _tc_inv(closure, A):
+    holds(same_array(closure, array_of(len(A), len(A), lambda i, j: 1.0 if (i < _k1 and i != j and reach(A, i, j)) else 0.0)))
+
+
+@contract("sempler.utils.chain_component")
+def chain_component(i: Int, G: Arr2) -> SetOf(Int):
+    requires(square(G), node(i, G))
+    # connectivity through undirected edges only
+    ensures(result == {j for j in range(len(G)) if ucomp(G, i, j)})
+    hint(closed_superset('ucomp', G, i, lambda x: x in visited), at='return')
+    fresh(result)
+
+
+@invariant("sempler.utils.chain_component", loop=1)
+def _cc_outer(visited, to_visit, i, G):
+    holds(i in visited or i in to_visit,
+          all(implies(x in visited or x in to_visit, ucomp(G, i, x)) for x in range(len(G))),
+          all(implies(x in visited or x in to_visit, node(x, G)) for x in visited | to_visit),
+          all(implies(v in visited and uedge(G, v, w), w in visited or w in to_visit) for v in range(len(G)) for w in range(len(G))))
+
+
+@invariant("sempler.utils.chain_component", loop=2)
+def _cc_inner(visited, to_visit, i, G):
+    holds(i in visited or i in to_visit,
+          all(implies(x in visited or x in to_visit or x in _iter2, ucomp(G, i, x)) for x in range(len(G))),
+          all(implies(x in visited or x in to_visit or x in _iter2, node(x, G)) for x in (visited | to_visit) | _iter2),
+          all(implies(v in visited and uedge(G, v, w), w in visited or w in to_visit) for v in range(len(G)) for w in range(len(G))))
+
+
+@spec
+def meets(path, S):
+    return any(path[m] in S for m in range(len(path)))
+
+
+@spec
+def sep(G, S, a, b):
+    return all(meets(path, S) for path in sd_paths(G, a, b))
+
+
+@contract("sempler.utils.semi_directed_paths")
+def semi_directed_paths(fro: Int, to: Int, A: Arr2) -> ListOf(ListOf(Int)):
+    requires(square(A), zero_diag(A), node(fro, A), node(to, A))
+    ensures(same_path_set(result, sd_paths(A, fro, to)))
+    ensures(defines(result, sd_paths(A, fro, to)))
+    fresh(result)
+
+
+@contract("sempler.utils.separates")
+def separates(S: SetOf(Int), A: SetOf(Int), B: SetOf(Int), G: Arr2) -> Bool:
+    requires(square(G), zero_diag(G), all(node(x, G) for x in A), all(node(x, G) for x in B), all(node(x, G) for x in S))
+    raises(ValueError, when=any((x in A and x in B) or (x in A and x in S) or (x in B and x in S) for x in range(len(G))))
+    # every semi-directed path from a node of A to a node of B meets S
+    ensures(result == all(sep(G, S, a, b) for a in A for b in B))
+
+
+@invariant("sempler.utils.separates", loop=1)
+def _sep1(S, A, B, G):
+    holds(all(implies(a2 in _done1 and b2 in B, sep(G, S, a2, b2)) for a2 in range(len(G)) for b2 in range(len(G))))
+
+
+@invariant("sempler.utils.separates", loop=2)
+def _sep2(S, A, B, G, a):
+    holds(all(implies(a2 in _done1 and b2 in B, sep(G, S, a2, b2)) for a2 in range(len(G)) for b2 in range(len(G))),
+          all(implies(b2 in _done2, sep(G, S, a, b2)) for b2 in range(len(G))))
+
+
+@invariant("sempler.utils.separates", loop=3)
+def _sep3(S, A, B, G, a, b):
+    holds(all(implies(a2 in _done1 and b2 in B, sep(G, S, a2, b2)) for a2 in range(len(G)) for b2 in range(len(G))),
+          all(implies(b2 in _done2, sep(G, S, a, b2)) for b2 in range(len(G))),
+          all(meets(sd_paths(G, a, b)[m], S) for m in range(_k3)),
+          len(_iter3) == len(sd_paths(G, a, b)),
+          all(same_list(_iter3[m], sd_paths(G, a, b)[m]) for m in range(len(_iter3))))
